@@ -967,17 +967,32 @@ def rule_rewrites_of_unplaced_operators(repo, rep, rule="C11-m"):
     tg = go.func("tflite_optimise_graph")
     lists = {st.targets[0].id: st.value for st in ast.walk(tg) if isinstance(st, ast.Assign) and isinstance(st.targets[0], ast.Name) and isinstance(st.value, ast.List)}
     names = []
-    for c in calls_in(tg, "rewrite_graph_pre_order"):
+    # passes that run before the pass holding supported_operator_check see every operator with the constructor's run_on_npu = True:
+    # rewrite_unsupported=False filters nothing there, and a run_on_npu test proves nothing
+    pre_check = set()
+    check_line = None
+    passes = []
+    for c in sorted(calls_in(tg, "rewrite_graph_pre_order"), key=lambda c_: c_.lineno):
         kw = {k.arg: k.value for k in c.keywords}
-        ru = kw.get("rewrite_unsupported", c.args[5] if len(c.args) > 5 else None)
-        applies = (isinstance(ru, ast.Constant) and ru.value is True) or (ru is None and default_true)
-        if not applies:
-            continue
         oplist = c.args[4] if len(c.args) > 4 else kw.get("op_rewrite_list")
         if isinstance(oplist, ast.Name):
             oplist = lists.get(oplist.id)
-        if isinstance(oplist, ast.List):
-            names += [e.id for e in oplist.elts if isinstance(e, ast.Name)]
+        pnames = [e.id for e in oplist.elts if isinstance(e, ast.Name)] if isinstance(oplist, ast.List) else []
+        passes.append((c, kw, pnames))
+        if "supported_operator_check" in pnames and check_line is None:
+            check_line = c.lineno
+    if check_line is None:
+        raise AnalysisError("tflite_optimise_graph: the pass that holds supported_operator_check was not found")
+    init_true = any(isinstance(st, ast.Assign) and str(norm(st)) == "self.run_on_npu = True" for st in ast.walk(repo.mod("operation").func("Operation.__init__")))
+    for c, kw, pnames in passes:
+        ru = kw.get("rewrite_unsupported", c.args[5] if len(c.args) > 5 else None)
+        applies = (isinstance(ru, ast.Constant) and ru.value is True) or (ru is None and default_true)
+        if c.lineno < check_line and init_true:
+            pre_check |= set(pnames)
+            applies = True
+        if not applies:
+            continue
+        names += pnames
     if len(names) < 4:
         raise AnalysisError(f"passes with rewrite_unsupported=True: {names}")
     MUT = ("set_input_tensor", "set_output_tensor", "add_input_tensor")
@@ -1003,13 +1018,27 @@ def rule_rewrites_of_unplaced_operators(repo, rep, rule="C11-m"):
             return e.id if isinstance(e, ast.Name) else None
 
         muts = [x for x in muts if receiver(x) not in trial | fresh]
+
+        def folded_to_constant(x):
+            # the property excludes operators folded into a constant at compile time: changes in the block that ends with `<op>.type = Op.Const`
+            cur = x
+            while cur is not fn and cur is not None:
+                pp = mod_.parents.get(cur)
+                for fld in ("body", "orelse"):
+                    body = getattr(pp, fld, None)
+                    if isinstance(body, list) and cur in body and any(isinstance(b, ast.Assign) and str(norm(b)).endswith(".type = Op.Const") for b in body):
+                        return True
+                cur = pp
+            return False
+
+        muts = [x for x in muts if not folded_to_constant(x)]
         sup_locals = {st.targets[0].id for st in walk_no_nested(fn) if isinstance(st, ast.Assign) and isinstance(st.targets[0], ast.Name) and "is_operator_supported(" in str(norm(st.value))}
         guards = []
         for i_ in walk_no_nested(fn):
             if isinstance(i_, ast.If) and i_.body and isinstance(i_.body[-1], ast.Return):
                 t = str(norm(i_.test))
                 neg_support = t.startswith("not ") and ("is_operator_supported(" in t or any(t in (f"not {l_}",) for l_ in sup_locals))
-                neg_npu = re.search(r"not \w+[.]run_on_npu", t) is not None
+                neg_npu = re.search(r"not \w+[.]run_on_npu", t) is not None and nm not in pre_check
                 neg_marker = any(f"not {p0}.attrs.get('{mk}'" in t.replace('"', "'") for mk in MARKERS)
                 if neg_support or neg_npu or neg_marker:
                     guards.append(i_)
@@ -1026,7 +1055,7 @@ def rule_rewrites_of_unplaced_operators(repo, rep, rule="C11-m"):
                 cur = pp
             return False
 
-        early = [x for x in muts if (first_guard is None or x.lineno < first_guard) and not under_npu_test(x)]
+        early = [x for x in muts if (first_guard is None or x.lineno < first_guard) and not (under_npu_test(x) and nm not in pre_check)]
         rep.check(not early, rule, f"{mod_.rel}:{nm}", f"every change `{nm}` makes to an operator follows a support / run_on_npu test ({len(muts)} mutations)",
                   (f"`{str(norm(early[0]))[:70]}` is done " + ("before" if first_guard else "without") + " any test that the operator is (or the merged operator will be) on the NPU: the pass applies it to "
                    "CPU operators as well (demonstrated: SPACE_TO_BATCH_ND -> CONV_2D stride_h 4 -> BATCH_TO_SPACE_ND written as one CPU CONV_2D; DEQUANTIZE -> EXP -> QUANTIZE on uint8 aborts; a float32 SPLIT "
